@@ -294,7 +294,14 @@ def floats():
 
 def complexes():
     fl = st.floats(allow_nan=False, allow_infinity=False, width=32) | st.sampled_from([0.0, -0.0, 1.0, 2.5])
-    return st.tuples(fl, fl).map(lambda t: ["complex", repr(float(t[0])), repr(float(t[1]))])
+    # python's repr of a complex with a negative-zero part does not read back with the same signs
+    # ((2-0j) evaluates to (2+0j)), so its text flips on every update run; excluded as a precondition
+    def stable(d):
+        c = complex(float(d[1]), float(d[2]))
+        return repr(eval(repr(c))) == repr(c)
+
+    return st.tuples(fl, fl).map(
+        lambda t: ["complex", repr(float(t[0]) + 0.0), repr(float(t[1]) + 0.0)]).filter(stable)
 
 
 def enums():
